@@ -288,4 +288,3 @@ func (g *qGen) genSortableTable(name string, nrows int, coqName string) *qTable 
 }
 
 var _ = rand.Int
-
